@@ -32,6 +32,11 @@ class C02(InvProp):
         e1.add_faults(rng, scn, p_pause=0.2)
         if rng.chance(0.3):
             scn['edits'] = e1.gen_edits(rng, scn)
+        if rng.chance(0.2):
+            gen.add_source_tcv(rng, scn)      # a TCV attached directly to a tank or reservoir
+        if rng.chance(0.3):
+            # rules with ELSE clauses on link statuses and valve settings (an ELSE action switches a link like any other action)
+            gen.add_rules(rng, scn, rng.irange(1, 2), kinds=('time', 'clock'), p_else=1.0, p_compound=0.2)
         return scn
 
     def oracle(self, scn, out, c):
